@@ -13,6 +13,9 @@ SPEC = {
         {"name": "stream", "pkg": O3, "kind": "rapid", "run": "^TestVerifC13Stream$",
          "quick": {"checks": 400, "shards": 4, "timeout": 300},
          "thorough": {"checks": 3000, "shards": 16, "timeout": 1800}},
+        {"name": "blocked-write", "pkg": O3, "kind": "rapid", "run": "^TestVerifC13BlockedWrite$",
+         "quick": {"checks": 200, "shards": 2, "timeout": 300},
+         "thorough": {"checks": 2000, "shards": 8, "timeout": 1800}},
         {"name": "reject", "pkg": O3, "kind": "rapid", "run": "^TestVerifC13Reject$",
          "quick": {"checks": 250, "shards": 2, "timeout": 300},
          "thorough": {"checks": 2000, "shards": 8, "timeout": 1800}},
